@@ -95,6 +95,8 @@ fixed(['C03', 'C04'], 'e57a248', '_untransformEquality evaluated sol._redCost[co
 fixed(['C03'], '25fe3c6', '_untransformUnbounded read sol._primal[numOrigCols] of an empty solution when the unboundedness test ended with an error: SIGSEGV in the exact solve')
 fixed(['C03'], 'a76c764', '_untransformUnbounded resized _basisStatusCols twice instead of _basisStatusRows in the branch without a result')
 
+fixed(['C13'], '521ec1f', 'ratFromString accepted zero denominators ("1/0"): invalid Rational stored by the rational LP/MPS readers, boost::domain_error out of readFile() or a stack overflow inside GMP later')
+
 # ------------------------------------------------------------------ open findings
 UND = r'(ABORT_CYCLING|RUNNING|UNKNOWN|ERROR|SINGULAR|NO_PROBLEM|NOT_INIT)'
 # --- simplex core
@@ -118,12 +120,15 @@ open_(['C05'], r'crash:(nonrepro-)?signal:SIG(SEGV|ABRT|FPE|BUS):.*', 'row repre
 open_(SOLVE + ['C14'], r'(netlib\.)?(history-dependent|complete|cert|verdict|wrong-verdict|reuse|resolve|basis|[a-z]+\.resume|state)[A-Za-z0-9_.\-]*:\{[^}]*starter=[123][^}]*\}.*',
       'nonbasic free rows are never priced: SPxSolverBase::coTest() has no P_FREE case (and entering one throws XENTER02 "not yet debugged"), so a start basis with a nonbasic free row - produced by the weight/sum/vector starters (minimal cell contains starter=1|2|3) - is reported OPTIMAL with a nonzero dual on the free row, e.g. for an unbounded LP, or ends RUNNING/ERROR after the internal exception (same root cause as the C06 free-row warm start finding; 87 % of the disagreements of the design-phase calibration)', regex=True,
       repro='findings/C17_starter_free_row_optimal.cpp')
-open_(['C01'], r'cert\.(bound|side):\{[^}]*ratiotester=0[^}]*scaler=0[^}]*\}.*',
-      'textbook ratio test (ratiotester=0) with scaling switched off on a badly scaled LP: OPTIMAL is reported with a bound violated far beyond the tolerance (2e-3 on a variable boxed in +-7e-4); the final verification does not catch it', regex=True,
+open_(['C01'], r'cert\.(bound|side):\{[^}]*ratiotester=0[^}]*\}.*',
+      'textbook ratio test (ratiotester=0) on badly scaled LPs (with or without scaling): OPTIMAL is reported with a bound violated far beyond the tolerance (2e-3 on a variable boxed in +-7e-4, 0.05 in another instance); the final verification does not catch it', regex=True,
       repro='./vcheck C01 --seed 7: key C01:cert.bound:{ratiotester=0,representation_switch=5,scaler=0}')
 open_(['C02'], r'(netlib\.)?ray:\{[^}]*representation=2[^}]*\}.*',
       'row representation: the primal ray returned for an unbounded LP (netlib gas11, ETA updates, Harris ratio test) does not improve the objective (c.d has the wrong sign / is zero)', regex=True,
       repro='./vcheck C02 --seed 42: key C02:netlib.ray:{ensureray=1,factor_update_type=0,pricer=4,ratiotester=1,representation=2}')
+open_(['C04'], r'basis\.singular\.after-INFEASIBLE:\{[^}]*representation=2[^}]*\}.*',
+      'row representation: after a solve ending INFEASIBLE the basis reported through getBasis() (hasBasis() true) can be exactly singular', regex=True,
+      repro='./vcheck C04 --seed 2: key C04:basis.singular.after-INFEASIBLE:{algorithm=0,min_markowitz=0.99,pricer=1,ratiotester=1,representation=2,scaler=1}')
 open_(['C17'], r'resolve-after-clearBasis-differs:.*',
       'solving the same unmodified object again after clearBasis() is not a replica of the first solve (different iteration count / vertex in 1-3% of the LPs): per-solve state survives clearBasis()', regex=True)
 # --- exact solver
